@@ -272,7 +272,7 @@ def e3_drive(run, acc, plan, shapes=None, label="E3"):
             if traces is None:
                 traces = vlib.split_traces(out)
             evs = [(ln, e) for (ln, e) in traces.get(t, []) if ln <= line]
-            meta = next((m for m in metas if m["t"] == t), {})
+            meta = next((m for m in metas if m["t"] == t), None) or next((m for m in metas if m["t"] == t % 1000), {})   # sub-traces: t + 1000 k
             rp = {"n": n, "cap": meta.get("cap"), "calls": calls_of_trace(evs)}
             if evs and evs[-1][1]["op"] in OBSERVER_OPS:
                 rp["observer"] = evs[-1][1]["op"]
@@ -367,7 +367,8 @@ def plan_gc(run, prop, tier):
     # E3
     e3_drive(run, acc, gc_plan(tier, s))
     if prop != "C05":
-        e3_drive(run, acc, twin_plan(tier, s)[1:3] if tier == "quick" else twin_plan(tier, s), label="E3 twins")
+        tp = twin_plan(tier, s)
+        e3_drive(run, acc, tp[1:3] + tp[5:6] if tier == "quick" else tp, label="E3 twins")
     if prop in ("C01", "C02", "C03"):
         # merge and slice are calls like any other for these properties (C01 names them): scenarios with reads, long traces
         e4_merge(run, acc, "trees g<=2 x h<=3, reads", cfg_mergegen(6, [0, 1], [1, 2, 3], 2, 3, 0, True), [(2, 6, 0)])
@@ -419,7 +420,12 @@ def plan_c05(run, prop, tier):
     e2_product(run, acc, "A3", [(2, 4, 0), (1, 3, 1)], extra_ops=("clone",))
     e3_drive(run, acc, twin_plan(tier, vlib.seed()), label="E3 twins")
     e3_drive(run, acc, [dict(profile="script", n=2, cap=64, steps=2500, seed=vlib.seed() * 100 + 71, window=12),
-                        dict(profile="merge", n=2, cap=32, steps=1200, seed=vlib.seed() * 100 + 31, window=12)], label="E3 scripts and merges")
+                        dict(profile="merge", n=2, cap=32, steps=1200, seed=vlib.seed() * 100 + 31, window=12),
+                        # wide vertices (stars of up to 8 kids) merged into graphs with vertices created explicitly above the allocator
+                        dict(profile="merge", n=8, cap=48, steps=2000, seed=vlib.seed() * 100 + 34, window=24),
+                        # the allocator walked through the whole id space, stepping over explicitly created vertices
+                        dict(profile="alloc", n=2, cap=120, steps=1000, seed=vlib.seed() * 100 + 35, window=10),
+                        dict(profile="alloc", n=1, cap=33, steps=400, seed=vlib.seed() * 100 + 36, window=10)], label="E3 scripts, merges, allocator walks")
     return acc
 
 
@@ -449,10 +455,10 @@ def plan_twin(run, prop, tier):
 def slice_plan(tier, s):
     if tier == "quick":
         return [dict(profile="slice", n=4, cap=16, steps=1200, seed=s * 100 + 21, window=12),
-                dict(profile="slice", n=16, cap=64, steps=1200, seed=s * 100 + 22, window=13),
+                dict(profile="slice", n=16, cap=64, steps=1200, seed=s * 100 + 22, window=14),   # 14 ids in play: slices of exactly 14 vertices
                 dict(profile="slice", n=2, cap=14, steps=1000, seed=s * 100 + 23, window=9)]
     return [dict(profile="slice", n=n, cap=cap, steps=4000, seed=s * 1000 + 70 + i, window=w)
-            for i, (n, cap, w) in enumerate([(2, 14, 9), (3, 16, 12), (4, 16, 13), (8, 32, 13), (16, 64, 12), (16, 256, 13), (1, 12, 8)])]
+            for i, (n, cap, w) in enumerate([(2, 14, 9), (3, 16, 12), (4, 16, 14), (8, 32, 13), (16, 64, 14), (16, 256, 13), (1, 12, 8), (2, 20, 14)])]
 
 
 def plan_c13(run, prop, tier):
@@ -647,7 +653,12 @@ def plan_export(run, prop, tier):
     # E3: the same observers every 25 calls of long histories at the real limits (N-label vertices, 14 groups, capacity 256)
     s = vlib.seed()
     op = [dict(profile="observe", n=2, cap=24, steps=2500, seed=s * 100 + 81, window=10),
-          dict(profile="observe", n=16, cap=256, steps=2500, seed=s * 100 + 82, window=40)]
+          dict(profile="observe", n=16, cap=256, steps=2500, seed=s * 100 + 82, window=40),
+          # the observers at the limits: groups of 16 with 13 others alive and ids up to 255, a hub with 16 labels, ids 226..255
+          dict(profile="cycle", n=16, cap=256, steps=1800, seed=s * 100 + 83, window=10, observe=40),
+          dict(profile="fan", n=16, cap=64, steps=1200, seed=s * 100 + 84, window=24, observe=30),
+          dict(profile="high", n=16, cap=256, steps=1200, seed=s * 100 + 85, window=30, observe=30),
+          dict(profile="groups14", n=2, cap=64, steps=1200, seed=s * 100 + 86, window=24, observe=30)]
     if tier == "thorough":
         op += [dict(profile="observe", n=n, cap=cap, steps=8000, seed=s * 1000 + 800 + i, window=w) for i, (n, cap, w) in enumerate([(1, 12, 8), (3, 32, 14), (4, 64, 24), (8, 128, 40), (16, 64, 60)])]
     e3_drive(run, acc, op, label="E3 observers")
@@ -716,7 +727,9 @@ def plan_c09(run, prop, tier):
     s = vlib.seed()
     extra_plan = [dict(profile="mixed", n=16, cap=24, steps=160, seed=s * 100 + 41, window=16),
                   dict(profile="big16", n=16, cap=24, steps=60, seed=s * 100 + 42, window=20),
-                  dict(profile="groups14", n=16, cap=40, steps=80, seed=s * 100 + 43, window=10)]
+                  dict(profile="groups14", n=16, cap=40, steps=80, seed=s * 100 + 43, window=10),
+                  dict(profile="cycle", n=4, cap=46, steps=110, seed=s * 100 + 44, window=10),      # 13 groups + a group of 16, long data
+                  dict(profile="cycle", n=2, cap=130, steps=75, seed=s * 100 + 47, window=10)]      # ids beyond 100
     if tier == "thorough":
         extra_plan += [dict(profile="mixed", n=16, cap=24, steps=60 + 40 * i, seed=s * 1000 + 400 + i, window=18) for i in range(10)]
     tr = run.fresh("trace", ".ndjson")
@@ -827,13 +840,18 @@ def plan_c19(run, prop, tier):
              dict(profile="merge", n=2, cap=20, steps=steps // 2, seed=s * 100 + 54, window=9),
              dict(profile="mixed", n=1, cap=6, steps=steps // 2, seed=s * 100 + 55, window=6),
              dict(profile="pairs", n=2, cap=8, steps=300, seed=s * 100 + 56, window=8),
-             dict(profile="pairs", n=2, cap=28, steps=400, seed=s * 100 + 57, window=28)]
+             dict(profile="pairs", n=2, cap=28, steps=400, seed=s * 100 + 57, window=28),
+             # capacities that are neither small nor a power of two, ids beyond 128, the allocator walked to the last id
+             dict(profile="merge", n=2, cap=140, steps=500, seed=s * 100 + 58, window=140),
+             dict(profile="alloc", n=2, cap=120, steps=1000, seed=s * 100 + 59, window=10),
+             dict(profile="high", n=2, cap=131, steps=500, seed=s * 100 + 60, window=12)]
     if tier == "thorough":
         bases += [dict(profile=p, n=n, cap=c, steps=steps, seed=s * 1000 + 500 + i, window=w)
                   for i, (p, n, c, w) in enumerate([("mixed", 3, 16, 12), ("twin", 1, 8, 7), ("slice", 3, 14, 10), ("merge", 3, 24, 10), ("groups14", 2, 40, 10), ("big16", 2, 20, 18)])]
     others = {1: [(2, 6), (16, 256)], 2: [(2, 13), (3, 12), (4, 64), (16, 256)], 3: [(4, 17), (8, 64), (16, 256)]}
     if tier == "quick":
         others = {1: [(16, 256)], 2: [(3, 13), (16, 256)], 3: [(16, 256)]}
+    big_others = [(3, 200), (16, 256)] if tier == "quick" else [(2, 129), (3, 200), (4, 255), (16, 256), (2, 1000)]
     compared = 0
     for b in bases:
         base_trace = run.fresh("base", ".ndjson")
@@ -844,21 +862,32 @@ def plan_c19(run, prop, tier):
             acc.notes.setdefault("void_base_traces", []).append({"profile": b["profile"], "from_line": v["voids"][0][1]})
         for (t, line, prop_, what) in v["fails"]:
             acc.fails.append({"prop": prop_, "what": what, "source": f"base trace {b['profile']}", "replay": None, "sig": ""})
-        evs = vlib.split_traces(base_trace).get(1, [])
-        if v.get("voids"):
-            evs = [(ln, e) for (ln, e) in evs if ln < v["voids"][0][1]]     # only the part inside the limits is compared
-        calls = calls_of_trace(evs)
-        base_norm = _load_norm(base_trace)[:len(calls)]
-        configs = [(b["n"], b["cap"], "same configuration, new process")] * 2 + [(n, max(c, b["cap"] + 1), "other configuration") for (n, c) in others.get(b["n"], [])]
+        # only the part inside the limits is compared: a history is cut where the judge declared it void.  (The merge profile
+        # records every round - two fresh graphs - as a history of its own; replayed back to back they are the same calls.)
+        voidmap = {t: l for (t, l) in v.get("voids", [])}
+        segs = []                                            # one call list per recorded history, in file order
+        evs = []
+        for t, tev in sorted(vlib.split_traces(base_trace).items(), key=lambda kv: kv[1][0][0]):
+            kept = [(ln, e) for (ln, e) in tev if not (t in voidmap and ln >= voidmap[t])]
+            if calls_of_trace(kept):
+                segs.append(calls_of_trace(kept))
+                evs += kept
+        calls = [c for sg in segs for c in sg]
+        where = [(si, off) for si, sg in enumerate(segs) for off in range(len(sg))]
+        base_norm = [(_norm_event(e), _norm_event(e, False)) for (_, e) in evs if _norm_event(e) is not None]
+        if len(base_norm) != len(calls):
+            raise ToolError("C19: calls and normalised events of the base trace do not line up")
+        configs = [(b["n"], b["cap"], "same configuration, new process")] * 2 + [(n, max(c, b["cap"] + 1), "other configuration") for (n, c) in (big_others if b["cap"] >= 100 else others.get(b["n"], []))]
         for (n, cap, kind) in configs:
-            cs = []
-            for c in calls:
+            def _cfg(c):
                 c = dict(c)
                 if c["op"] == "new":
                     c["n"], c["cap"] = n, cap
-                cs.append(c)
+                return c
+            css = [[_cfg(c) for c in sg] for sg in segs]
+            cs = [c for sg in css for c in sg]
             cf = run.fresh("calls", ".json")
-            json.dump({"n": n, "cap": cap, "calls": cs}, open(cf, "w"))
+            json.dump([{"n": n, "cap": cap, "calls": sg, "t": i + 1} for i, sg in enumerate(css)], open(cf, "w"))
             out = run.fresh("replay", ".ndjson")
             vlib.sh([H, "record", "--calls", cf, "--out", out, "--scratch", run.dir], timeout=1200)
             got = _load_norm(out)
@@ -873,7 +902,7 @@ def plan_c19(run, prop, tier):
                 acc.fails.append({"prop": "C19", "what": f"{kind}: N={n} cap={cap} differs from N={b['n']} cap={b['cap']} at call {diff_at + 1} "
                                                          f"({json.dumps(cs[diff_at])[:120] if diff_at < len(cs) else 'length'})",
                                   "source": f"differential replay, profile {b['profile']}",
-                                  "replay": {"kind": "diff", "a": {"n": b["n"], "cap": b["cap"]}, "b": {"n": n, "cap": cap}, "calls": cs[:diff_at + 1]}, "sig": "diff"})
+                                  "replay": {"kind": "diff", "a": {"n": b["n"], "cap": b["cap"]}, "b": {"n": n, "cap": cap}, "calls": (css[where[diff_at][0]][:where[diff_at][1] + 1] if diff_at < len(where) else css[-1])}, "sig": "diff"})
             if tier == "thorough" or kind == "other configuration":
                 v2 = vlib.judge(run, out, n, timeout=3000)
                 acc.traces += 1
